@@ -337,6 +337,10 @@ func decodeLen(highThreeBits, lowFiveBits byte, additional []byte) (int, error) 
 	if lowFiveBits < 0x18 {
 		length = uint64(lowFiveBits)
 	}
+	// Check the declared count before doubling it: 2^63 pairs would wrap to 0
+	if length >= MaxArrayDecodeLength {
+		return 0, fmt.Errorf("length exceeds max size: %d", length)
+	}
 	if highThreeBits == mapMajorType {
 		length *= 2
 	}
